@@ -7,6 +7,7 @@ package main
 import (
 	"fmt"
 	"os"
+	"runtime/debug"
 	"sort"
 
 	"verif/rt"
@@ -59,6 +60,9 @@ func main() {
 		fmt.Println("unknown property", os.Args[1])
 		os.Exit(rt.ExitInconclusive)
 	}
+	// the workloads allocate many tiny objects on all cores; a small heap makes the
+	// collector run continuously and serialises the workers
+	debug.SetGCPercent(1600)
 	c := rt.New(os.Args[1])
 	func() {
 		defer func() {
